@@ -950,11 +950,17 @@ func uniq(s []string) []string {
 func c08Range(r *core.Run) {
 	p := r.P
 	n := 0
-	bounded := map[*ssa.Function]string{} // module functions whose float result is in [0,1], with reason ("" = not)
-	var isBoundedFn func(fn *ssa.Function, depth int) (bool, string)
+	type resKey struct {
+		fn  *ssa.Function
+		idx int
+	}
+	bounded := map[resKey]string{} // module functions whose idx-th (float) result is in [0,1], with reason ("" = not)
+	var isBoundedRes func(fn *ssa.Function, idx int, depth int) (bool, string)
+	isBoundedFn := func(fn *ssa.Function, depth int) (bool, string) { return isBoundedRes(fn, 0, depth) }
 	var termOK func(fn *ssa.Function, v ssa.Value, at *ssa.BasicBlock, depth int) (bool, string)
 
 	termOK = func(fn *ssa.Function, v ssa.Value, at *ssa.BasicBlock, depth int) (bool, string) {
+		v = core.Resolve(v) // a term parked in a local (or a field of a local struct) before it is appended
 		if f, ok := core.ConstFloat(v); ok {
 			return f >= 0 && f <= 1, fmt.Sprintf("constant %g", f)
 		}
@@ -1020,32 +1026,37 @@ func c08Range(r *core.Run) {
 				return isBoundedFn(callee, depth+1)
 			}
 		case *ssa.Extract:
-			if c, ok := x.Tuple.(*ssa.Call); ok && x.Index == 0 {
+			if c, ok := x.Tuple.(*ssa.Call); ok {
 				if callee := core.StaticCallee(&c.Call); callee != nil && p.IsProdFunc(callee) {
-					return isBoundedFn(callee, depth+1)
+					return isBoundedRes(callee, x.Index, depth+1)
 				}
 			}
 		}
 		return false, "unbounded score term " + core.Canon(v)
 	}
 
-	isBoundedFn = func(fn *ssa.Function, depth int) (bool, string) {
-		if why, ok := bounded[fn]; ok {
+	isBoundedRes = func(fn *ssa.Function, idx int, depth int) (bool, string) {
+		key := resKey{fn, idx}
+		if why, ok := bounded[key]; ok {
 			return why != "", why
 		}
 		if depth > 3 {
 			return false, "too deep"
 		}
-		bounded[fn] = "(in progress)"
+		bounded[key] = "(in progress)"
 		res := "bounded results of " + core.FuncName(fn)
 		for _, ret := range core.Returns(fn) {
-			v := ret.Results[0]
+			if idx >= len(ret.Results) {
+				bounded[key] = ""
+				return false, "no such result"
+			}
+			v := ret.Results[idx]
 			// mean of own bounded scores: total / float(len(scores))
 			if b, ok := v.(*ssa.BinOp); ok && b.Op == token.QUO && isLenConv(b.Y) {
 				if ok2, why := scoresBounded(fn, lenArg(b.Y), termOK); ok2 {
 					continue
 				} else {
-					bounded[fn] = ""
+					bounded[key] = ""
 					return false, why
 				}
 			}
@@ -1058,11 +1069,11 @@ func c08Range(r *core.Run) {
 				}
 			}
 			if !okAll {
-				bounded[fn] = ""
+				bounded[key] = ""
 				return false, why
 			}
 		}
-		bounded[fn] = res
+		bounded[key] = res
 		return true, res
 	}
 
